@@ -8,15 +8,19 @@
 //! Point cases (sw_ser, sw_de, te_ser, te_de):
 //!   a[0] = [curve_id, N, compress, validate, projective]
 //!   a[1] = [p, deg]  a[2] = [nr]  a[3] = COEFF_A  a[4] = COEFF_B|COEFF_D  a[5] = [r]  a[6..] operands
+//! Ordering cases (f_cmp): a[0..2] as for field cases, a[3] = x, a[4] = y (coordinates); returns
+//!   [Ord::cmp], [PartialOrd::partial_cmp], [x < y, x <= y, x > y, x >= y]  (0 Less, 1 Equal, 2 Greater) --
+//!   the sign flag of a compressed point is exactly `y <= -y` / `x <= -x`, the root order `y < -y`.
 //! The configuration constants of a case are compared with the compiled ones (a
 //! difference is a harness panic, hence a reported mismatch).
 // the derive macro expands to `cfg!(feature = "asm")`, a feature this crate does not declare
 #![allow(unexpected_cfgs)]
 use ark_ec::short_weierstrass::{self as sw, SWCurveConfig, SWFlags};
-use ark_ec::twisted_edwards::{self as te, TECurveConfig, TEFlags};
+use ark_ec::twisted_edwards::{self as te, MontCurveConfig, TECurveConfig, TEFlags};
 use ark_ec::CurveConfig;
-use ark_ff::fields::{Fp128, Fp192, Fp64, MontBackend, MontConfig};
-use ark_ff::{Field, PrimeField, Zero};
+use ark_ff::fields::{Fp128, Fp192, Fp256, Fp64, MontBackend, MontConfig};
+use ark_ff::{Field, MontFp, PrimeField, Zero};
+use core::cmp::Ordering;
 use ark_serialize::{
     CanonicalDeserialize, CanonicalSerialize, Compress, EmptyFlags, SerializationError, Validate,
 };
@@ -169,6 +173,24 @@ fn run_field<F: Field>(op: &str, a: &[Arg]) -> Vec<Arg> {
                 _ => unsupported(),
             }
         },
+        "f_cmp" => {
+            let x: F = elem(&a[3]);
+            let y: F = elem(&a[4]);
+            let code = |o: Ordering| match o {
+                Ordering::Less => 0u64,
+                Ordering::Equal => 1,
+                Ordering::Greater => 2,
+            };
+            let pc = match x.partial_cmp(&y) {
+                Some(o) => code(o),
+                None => 3,
+            };
+            ok(vec![
+                vec![from_u64(code(x.cmp(&y)))],
+                vec![from_u64(pc)],
+                vec![from_bool(x < y), from_bool(x <= y), from_bool(x > y), from_bool(x >= y)],
+            ])
+        },
         "f_de_plain" => {
             let bytes = bytes_of(&a[3]);
             let c = compress_of(fc);
@@ -208,6 +230,11 @@ fn dump_curve<B: Field, S: PrimeField>(ca: &B, cb: &B, gx: &B, gy: &B, cof: &[u6
         c[1] = <B::BasePrimeField as Field>::ONE;
         let uu: B = B::from_base_prime_field_elems(c).unwrap();
         vec![coords(&(uu * uu))[0].clone()]
+    } else if d == 3 {
+        let mut c = vec![<B::BasePrimeField as Zero>::zero(); 3];
+        c[1] = <B::BasePrimeField as Field>::ONE;
+        let uu: B = B::from_base_prime_field_elems(c).unwrap();
+        vec![coords(&(uu * uu * uu))[0].clone()]
     } else {
         vec![]
     };
@@ -370,6 +397,55 @@ toy!(C14b, F14b, Fp64, 1, "16381");
 toy!(C62, F62, Fp64, 1, "2849647038907036733");
 toy!(C11b, F11b, Fp64, 1, "2039");
 
+
+// ---- twisted-Edwards curves over base fields with MODULUS_BIT_SIZE % 8 == 0 (no spare bit for the x-sign
+// flag in the top byte of y).  Constants derived by props/C09/mkte.py; all curves are complete (a square,
+// d non-square).  T8/T16/T64/T128/T256b: #E = 4 r with r prime (ScalarField = F_r).  T256 (secp256k1 base
+// field): #E = p + 1 is not factored, ScalarField/COFACTOR are formal (r*P = O only for the identity).
+toy!(C128e, F128e, Fp128, 2, "340282366920938463463374607431768103891");
+toy!(C256e, F256e, Fp256, 4, "115792089237316195423570985008687907853269984665640564039457584007913129601683");
+toy!(CR8, R8, Fp64, 1, "59");
+toy!(CR16, R16, Fp64, 1, "16267");
+toy!(CR64, R64, Fp64, 1, "4611686018532695467");
+toy!(CR128, R128, Fp128, 2, "85070591730234615865843651857942025973");
+toy!(CR256, R256, Fp256, 4, "28948022309329048855892746252171976963317496166410141009864396001978282400421");
+macro_rules! te_curve {
+    ($cfg:ident, $fq:ty, $fr:ty, $a:tt, $d:tt, $gx:tt, $gy:tt, $h:tt, $hinv:tt, $ma:tt, $mb:tt) => {
+        #[derive(Clone, Default, PartialEq, Eq)]
+        pub struct $cfg;
+        impl CurveConfig for $cfg {
+            type BaseField = $fq;
+            type ScalarField = $fr;
+            const COFACTOR: &'static [u64] = &[$h];
+            const COFACTOR_INV: $fr = MontFp!($hinv);
+        }
+        impl TECurveConfig for $cfg {
+            const COEFF_A: $fq = MontFp!($a);
+            const COEFF_D: $fq = MontFp!($d);
+            const GENERATOR: te::Affine<Self> = te::Affine::<Self>::new_unchecked(MontFp!($gx), MontFp!($gy));
+            type MontCurveConfig = $cfg;
+        }
+        impl MontCurveConfig for $cfg {
+            const COEFF_A: $fq = MontFp!($ma);
+            const COEFF_B: $fq = MontFp!($mb);
+            type TECurveConfig = $cfg;
+        }
+    };
+}
+te_curve!(T8, F8, R8, "196", "76", "216", "133", 4, "15", "38", "159");
+te_curve!(T16, F16, R16, "21579", "8730", "50373", "8715", 4, "4067", "14859", "56689");
+te_curve!(T64, F64, R64, "2651949017411421161", "1597271433543068309", "16842461655196175986",
+    "914657001459729111", 4, "1152921504633173867", "18404380091693933318", "15721454427847257864");
+te_curve!(T128, F128e, R128, "1", "-1", "243696223229155385388154514777379684370",
+    "237433905823834147221889066192371689789", 4, "63802943797675961899382738893456519480", "0", "2");
+te_curve!(T256, ark_test_curves::secp256k1::Fq, ark_test_curves::secp256k1::Fr, "1", "-1",
+    "68322748304924919175438803325720074731664608905715187791460726261469339981870",
+    "7593545717158916129939939954992389902636280197373203680797167759953178065820", 1, "1", "0", "2");
+te_curve!(T256b, F256e, R256, "1", "-1",
+    "57026472402377723564442318405386017885664877206296213894583325893179282240723",
+    "53322614531946817034109513010072318691192807935685121481147686512563804750650", 4,
+    "21711016731996786641919559689128982722488122124807605757398297001483711800316", "0", "2");
+
 fn dispatch(op: &str, a: &[Arg]) -> Vec<Arg> {
     let id = to_u64(&a[0][0]);
     if op.starts_with("f_") {
@@ -412,6 +488,8 @@ fn dispatch(op: &str, a: &[Arg]) -> Vec<Arg> {
             (22, 1) => run_field::<F62>(op, a),
             (23, 1) => run_field::<ark_secp256k1::Fr>(op, a),
             (24, 1) => run_field::<F11b>(op, a),
+            (25, 1) => run_field::<F128e>(op, a),
+            (26, 1) => run_field::<F256e>(op, a),
             _ => unsupported(),
         };
     }
@@ -426,10 +504,18 @@ fn dispatch(op: &str, a: &[Arg]) -> Vec<Arg> {
         7 => run_sw::<ark_pallas::PallasConfig>(op, a),
         8 => run_sw::<ark_ed_on_bls12_381_bandersnatch::BandersnatchConfig>(op, a),
         9 => run_sw::<ark_ed_on_bls12_381::JubjubConfig>(op, a),
+        10 => run_sw::<ark_mnt6_298::g2::Config>(op, a),
+        11 => run_sw::<ark_bls12_377::g2::Config>(op, a),
         20 => run_te::<ark_ed_on_bls12_381::JubjubConfig>(op, a),
         21 => run_te::<ark_ed25519::EdwardsConfig>(op, a),
         22 => run_te::<ark_ed_on_bls12_381_bandersnatch::BandersnatchConfig>(op, a),
         23 => run_te::<ark_test_curves::ed_on_bls12_381::EdwardsConfig>(op, a),
+        24 => run_te::<T8>(op, a),
+        25 => run_te::<T16>(op, a),
+        26 => run_te::<T64>(op, a),
+        27 => run_te::<T128>(op, a),
+        28 => run_te::<T256>(op, a),
+        29 => run_te::<T256b>(op, a),
         _ => unsupported(),
     }
 }
